@@ -465,6 +465,29 @@ static void runChained(Ctx* c, size_t si, const RefDef& d, Loaded& A, const Filt
           if (c->log) printf(" round 2 part %u arrives: storeLastData(%s, %s) -> %s\n", (unsigned)k, c09::toHex(rp2.masters[k]).c_str(), c09::toHex(rp2.slaves[k]).c_str(), rc(r).c_str());
         }
         decodeCheck(c, d, mb, val2, "chain-rejoin", hs);
+        // round 3, much later (16*parts s, outside any collection window): the first values again, parts in the
+        // order of this history.  While the round is incomplete the message must not show a value the device
+        // never had (parts of round 2 joined with parts of round 3); once complete it shows the new value.
+        g_now += (time_t)(16 * P);
+        for (size_t k = 0; k < P; k++) {
+          MasterSymbolString ms; SlaveSymbolString ss;
+          fill(&ms, rp.masters[perm[k]]); fill(&ss, rp.slaves[perm[k]]);
+          result_t r = mb->storeLastData(ms, ss);
+          R.transitions++;
+          R.state(vp::fnv(hs + "/r3/" + std::to_string(k)));
+          if (c->log) printf(" round 3 (%us later) part %d arrives: storeLastData(%s, %s) -> %s\n", (unsigned)(16 * P), perm[k], c09::toHex(rp.masters[perm[k]]).c_str(), c09::toHex(rp.slaves[perm[k]]).c_str(), rc(r).c_str());
+          if (k + 1 < P) {
+            std::ostringstream out;
+            result_t dr = mb->decodeLastData(pt_any, false, nullptr, -1, OF_NAMES, &out);
+            R.transitions++; R.tracesValidated++;
+            if (c->log) printf("  decodeLastData while the round is incomplete -> %s \"%s\" (previous complete value %s, new value %s)\n", rc(dr).c_str(), out.str().c_str(), joinStr(val2.pairs).c_str(), joinStr(val.pairs).c_str());
+            if (dr == RESULT_OK && !samePairs(out.str(), val2.pairs) && !samePairs(out.str(), val.pairs))
+              report(c, string("C09/chain-mixed-rounds/") + shapeClass(*d.shape) + "/" + lenModeName(*d.shape),
+                     "after " + std::to_string(k + 1) + " of " + std::to_string(P) + " parts of a round " + std::to_string(16 * P) + " s after the previous one decoded \"" + out.str() +
+                     "\": neither the previous complete value " + joinStr(val2.pairs) + " nor the new one " + joinStr(val.pairs), hs);
+          }
+        }
+        decodeCheck(c, d, mb, val, "chain-late-round", hs);
         if (flt.on && isTarget) done = true;
       }
     } while (!done && std::next_permutation(perm.begin(), perm.end()));
